@@ -76,6 +76,16 @@ def remove_redundant_iter(source: str) -> str:
     template = (ast.For(iter=iter_template), ast.comprehension(iter=iter_template))
 
     for node in core.walk(root, template):
+        if isinstance(node, ast.For):
+            # for x in list(y): y.remove(x) iterates over a copy on purpose
+            iterated = {name.id for name in core.walk(node.iter.args[0], ast.Name)}
+            if any(
+                name.id in iterated
+                for child in node.body + node.orelse
+                for name in core.walk(child, ast.Name)
+            ):
+                continue
+
         yield node.iter, node.iter.args[0]
 
 
